@@ -262,8 +262,9 @@ Definition core_step (fuel : nat) (bcf : bcfg) (icf : icfg) (src : str) (st : re
   let '(root, refs, starts) := x in
   if rule =? C_BLOCK then
     let ls := split_lines src in
-    do r <- block_parse fuel bcf (map snd ls) root refs;
-    ret (fst r, snd r, map fst ls)
+    (* the block tokenizer only ever pushes children into the node it is given and looks at its kind *)
+    do r <- block_parse fuel bcf (map snd ls) (mk KRoot None []) refs;
+    ret (set_children root (n_children root ++ n_children (fst r)), snd r, map fst ls)
   else if rule =? C_INLINE then
     do r <- inline_walk fuel icf refs root; ret (r, refs, starts)
   else if rule =? C_FRAGJOIN then ret (fj_walk root, refs, starts)
